@@ -85,9 +85,14 @@ def decoder_subcode(kind):
     return _DECODER_SUB[kind]
 
 
+def is_open_ok(kind):
+    """a valid OPEN of the remote speaker, whatever hold time it proposes (OpenOkHold<n>: RFC 4271 4.2, 0 or >= 3)"""
+    return kind in ('OpenOk', 'OpenOkLow', 'OpenOkExt') or str(kind).startswith('OpenOkHold')
+
+
 def abstract_kind(kind, st):
     """concrete kind consumed in FSM state st -> kind code of the model"""
-    if kind in ('OpenOk', 'OpenOkLow', 'OpenOkExt'):
+    if is_open_ok(kind):
         return K_OPENOK
     if kind.startswith('UpdateBig'):
         return K_UPDATEOK
@@ -205,6 +210,13 @@ def systematic():
     cases.append({'name': 'D13-openconfirm', 'steps': [['connect_ok', None], ['recv', 'OpenOk'], ['incoming', None], ['recv', 'OpenOk'], ['recv', 'Keepalive'], ['silence', 400]]})
     cases.append({'name': 'openconfirm-low-id-incoming', 'steps': [['connect_ok', None], ['recv', 'OpenOkLow'], ['incoming', None], ['recv', 'Keepalive'], ['tick', 1.0]]})
     cases.append({'name': 'openconfirm-silence', 'steps': [['connect_ok', None], ['recv', 'OpenOk'], ['silence', 400]]})
+    # the peer proposes another hold time than ours (180): 0 = no hold timer and no periodic KEEPALIVE at all (RFC 4271 4.2),
+    # a small one = the smaller counts; every silence here is shorter than both, so no timer event is due
+    cases.append({'name': 'hold-zero', 'steps': [['connect_ok', None], ['recv', 'OpenOkHold0'], ['silence', 1.0], ['recv', 'Keepalive'],
+                                                 ['silence', 120], ['recv', 'UpdateOk'], ['tick', 1.0]]})
+    cases.append({'name': 'hold-zero-passive', 'steps': PREFIX['Wacc'] + [['recv', 'OpenOkHold0'], ['recv', 'Keepalive'], ['silence', 60], ['recv', 'UpdateOk'], ['tick', 1.0]]})
+    cases.append({'name': 'hold-nine', 'steps': [['connect_ok', None], ['recv', 'OpenOkHold9'], ['silence', 2.0], ['recv', 'Keepalive'],
+                                                 ['silence', 5.0], ['recv', 'UpdateOk'], ['tick', 1.0]]})
     cases.append({'name': 'passive-accept', 'steps': PREFIX['Wacc'] + [['recv', 'OpenOk'], ['recv', 'Keepalive'], ['tick', 1.0], ['recv', 'UpdateOk'], ['teardown', 6], ['tick', 1.0]]})
     return cases
 
@@ -395,7 +407,7 @@ def abstract(log):
             name, arg, st = e[1], e[2], e[3]
             if name == 'Recv':
                 ev = [4, abstract_kind(arg, st)]
-                if arg in ('OpenOk', 'OpenOkLow', 'OpenOkExt') and st == 8:
+                if is_open_ok(arg) and st == 8:
                     rid_ge = arg != 'OpenOkLow'
             elif name == 'Incoming':
                 ev = [3, 1 if rid_ge else 0]
@@ -493,7 +505,7 @@ def oracle(log, res, which=('C05', 'C10')):
             pb = True
         if name == 'Recv' and owned is not None:
             # (OPENSENT; CONNECT when the local AS is mirrored: the peer's OPEN is read before ours is sent)
-            if arg in ('OpenOk', 'OpenOkLow', 'OpenOkExt') and st0 in (4, 8):
+            if is_open_ok(arg) and st0 in (4, 8):
                 tinfo[owned]['open_rcvd'] = True
             if arg == 'Keepalive' and tinfo[owned]['open_rcvd']:
                 tinfo[owned]['ka_rcvd'] = True
